@@ -75,18 +75,20 @@ def model_skeletons() -> dict[str, dict]:
     )
     S["enums"] = doc(
         {
-            "StrEnum": {"type": "string", "enum": ["a", "b c", "1st", "", "Ünï"]},
-            "IntEnum": {"type": "integer", "enum": [-4, 0, 2]},
-            "HolderA": obj({"req-e": ref("StrEnum"), "optE": ref("StrEnum"), "int.e": ref("IntEnum")}, ["req-e"]),
+            "StrChoice": {"type": "string", "enum": ["a", "b c", "1st", "", "Ünï"]},
+            "IntChoice": {"type": "integer", "enum": [-4, 0, 2]},
+            "HolderA": obj({"req-e": ref("StrChoice"), "optE": ref("StrChoice"), "int.e": ref("IntChoice")}, ["req-e"]),
             "HolderB": obj({"inlineEnum": {"type": "string", "enum": ["x", "y"]}, "nullEnum": {"type": ["string", "null"], "enum": ["p", "q", None]}, "const-s": {"const": "fixed"}, "constI": {"const": 7}}, ["const-s"]),
             "HolderF": obj({"zero": {"const": 0}, "empty-s": {"const": ""}, "zeroF": {"const": 0.0}, "no": {"const": False}, "opt-null-zero": {"oneOf": [{"const": 0}, {"type": "null"}]}}, ["zero", "empty-s"], additionalProperties=False),
             # two inline enums that share one generated class (same title, same values) but not their requiredness
             "HolderG": obj({"billing-c": {"title": "Country", "type": "string", "enum": ["de", "fr"]}, "shippingC": {"title": "Country", "type": "string", "enum": ["de", "fr"]}, "thirdC": {"title": "Country", "type": "string", "enum": ["de", "fr"], "default": "fr"}}, ["billing-c"], additionalProperties=False),
+            # several constants in one union; constants next to an explicit type (the boolean one used to be ignored)
+            "HolderH": obj({"ab": {"oneOf": [{"const": "a"}, {"const": "b"}]}, "yes": {"type": "boolean", "const": True}, "typedS": {"type": "string", "const": "s"}, "typedI": {"type": "integer", "const": 5}, "opt-12-null": {"oneOf": [{"const": 1}, {"const": 2}, {"type": "null"}]}}, ["ab"], additionalProperties=False),
             "Type": {"type": "string", "enum": ["t1", "t2"]},
             "Format": {"type": "integer", "enum": [1, 2]},
             "HolderE": obj({"the-type": ref("Type"), "fmt": ref("Format"), "type-list": arr(ref("Type"))}, additionalProperties=False),
-            "HolderD": obj({"null-int-e": {"enum": [1, 2, None]}, "intE-or-str": {"oneOf": [ref("IntEnum"), STR]}, "opt-null-ref": {"oneOf": [{"type": "null"}, ref("IntEnum")]}}, additionalProperties=False),
-            "HolderC": obj({"e-list": arr(ref("StrEnum")), "req-el": arr(ref("IntEnum"))}, ["req-el"], additionalProperties=False),
+            "HolderD": obj({"null-int-e": {"enum": [1, 2, None]}, "intE-or-str": {"oneOf": [ref("IntChoice"), STR]}, "opt-null-ref": {"oneOf": [{"type": "null"}, ref("IntChoice")]}}, additionalProperties=False),
+            "HolderC": obj({"e-list": arr(ref("StrChoice")), "req-el": arr(ref("IntChoice"))}, ["req-el"], additionalProperties=False),
         }
     )
     S["nested"] = doc(
@@ -249,6 +251,40 @@ def endpoint_skeletons() -> dict[str, dict]:
             "/pfx/{userId}/{userIdKind}": {"get": {"operationId": "prefixTwins", "parameters": [param("userId", "path", STR), param("userIdKind", "path", STR)], "responses": {"204": {"description": "none"}}}},
             # one enum class shared by an optional and a required parameter (same title, same values)
             "/q/shared-enum": {"get": {"operationId": "sharedEnum", "parameters": [param("thenBy", "query", {"title": "Order", "type": "string", "enum": ["asc", "desc"]}), param("orderBy", "query", {"title": "Order", "type": "string", "enum": ["asc", "desc"]}, True)], "responses": {"204": {"description": "none"}}}},
+            # declared defaults in every location (C13 for parameters); a path parameter with a default *before* one without
+            "/d/{dflt-id}/{plain-id}": {
+                "get": {
+                    "operationId": "pathDefaults",
+                    "parameters": [param("dflt-id", "path", {"type": "integer", "default": 3}), param("plain-id", "path", STR), param("X-D", "header", {"type": "string", "default": "hv"}), param("c-d", "cookie", {"type": "integer", "default": 1})],
+                    "responses": {"204": {"description": "none"}},
+                }
+            },
+            "/d/kinds": {
+                "get": {
+                    "operationId": "defaultKinds",
+                    "parameters": [
+                        param("d-int", "query", {"type": "integer", "default": 5}),
+                        param("dStr", "query", {"type": "string", "default": "hi"}),
+                        param("d.bool", "query", {"type": "boolean", "default": True}),
+                        param("dNum", "query", {"type": "number", "default": 1.5}),
+                        param("reqD", "query", {"type": "integer", "default": 9}, True),
+                    ],
+                    "responses": {"204": {"description": "none"}},
+                }
+            },
+            "/d/rich": {
+                "get": {
+                    "operationId": "defaultRich",
+                    "parameters": [
+                        param("d-date", "query", {"type": "string", "format": "date", "default": "2020-01-02"}),
+                        param("dInline", "query", {"type": "string", "enum": ["x", "y"], "default": "y"}),
+                        param("d.color", "query", {"allOf": [ref("Color")], "default": "red"}),
+                        param("X-Lvl", "header", {"allOf": [ref("Level")], "default": 2}),
+                        param("zero-d", "query", {"type": "integer", "default": 0}),
+                    ],
+                    "responses": {"204": {"description": "none"}},
+                }
+            },
             "/e/{color}/{level}": {
                 "put": {
                     "operationId": "enumPath",
@@ -266,6 +302,13 @@ def endpoint_skeletons() -> dict[str, dict]:
             "/b/json": {"post": {"operationId": "postJson", "requestBody": {"required": True, "content": {"application/json": {"schema": ref("Leaf")}}}, "responses": {"204": {"description": "none"}}}},
             "/b/json-list": {"post": {"operationId": "postJsonList", "requestBody": {"content": {"application/json": {"schema": arr(ref("Leaf"))}}}, "responses": {"204": {"description": "none"}}}},
             "/b/vnd": {"put": {"operationId": "putVnd", "requestBody": {"content": {"application/vnd.skel+json": {"schema": ref("Leaf")}}}, "responses": {"204": {"description": "none"}}}},
+            # media type keys with parameters: they are sent exactly as the document spells them
+            "/b/charset": {"post": {"operationId": "postCharset", "requestBody": {"content": {"application/json; charset=utf-8": {"schema": ref("Leaf")}}}, "responses": {"204": {"description": "none"}}}},
+            "/b/vnd-param": {"put": {"operationId": "putVndParam", "requestBody": {"content": {"application/vnd.skel+json; ext=bulk": {"schema": arr(INT)}, "application/xml": {"schema": ref("Leaf")}}}, "responses": {"204": {"description": "none"}}}},
+            # media types that are only supported through content_type_overrides (C16); without the option they are reported and skipped
+            "/b/zip": {"post": {"operationId": "postZip", "requestBody": {"content": {"application/zip": {"schema": {"type": "string", "format": "binary"}}}}, "responses": {"204": {"description": "none"}}}},
+            "/b/mixed": {"post": {"operationId": "postMixed", "requestBody": {"content": {"multipart/mixed": {"schema": ref("Form")}}}, "responses": {"204": {"description": "none"}}}},
+            "/b/text-json": {"post": {"operationId": "postTextJson", "requestBody": {"content": {"text/json": {"schema": ref("Leaf")}, "application/json": {"schema": ref("Form")}}}, "responses": {"204": {"description": "none"}}}},
             "/b/form": {"post": {"operationId": "postForm", "requestBody": {"content": {"application/x-www-form-urlencoded": {"schema": ref("Form")}}}, "responses": {"204": {"description": "none"}}}},
             "/b/multi": {"post": {"operationId": "postMulti", "requestBody": {"content": {"multipart/form-data": {"schema": ref("Upload")}}}, "responses": {"204": {"description": "none"}}}},
             "/b/bin": {"post": {"operationId": "postBin", "requestBody": {"content": {"application/octet-stream": {"schema": {"type": "string", "format": "binary"}}}}, "responses": {"204": {"description": "none"}}}},
